@@ -372,7 +372,12 @@ class NestedTextRenderer(Renderer):
         ret = []
         for decoded_node in decoded_nodes:
             if isinstance(decoded_node, NoValueDataNode):
-                ret.append('{}{}'.format(indent, decoded_node))
+                if isinstance(decoded_node.descriptor, ElementDescriptor):
+                    # An element whose data is not present (221YYY) is shown by its ID only,
+                    # so that its name is not taken for a value when converting the text back
+                    ret.append('{}{}'.format(indent, decoded_node.descriptor))
+                else:
+                    ret.append('{}{}'.format(indent, decoded_node))
 
                 if isinstance(decoded_node, SequenceNode):
                     ret.extend(
